@@ -110,6 +110,29 @@ func (ru *Rule) Anchor(ok bool, name string) bool {
 	return ok
 }
 
+// Adopt takes over, under the id `as`, a rule decided in another report (the check of another property run on the same
+// program): its description, its instance bookkeeping and every obligation it produced, anchor failures included.
+func (r *Report) Adopt(from *Report, ruleID, as, why string) {
+	ri := from.byID[ruleID]
+	if ri == nil {
+		// the lender no longer has that rule: the borrowed obligation cannot be decided (vacuity policy fails it)
+		r.Rule(as, "shared with "+ruleID+" ("+why+"): rule not found in the lending check", "", 1)
+		return
+	}
+	nr := r.Rule(as, ri.Desc+" [decided as "+ruleID+"; needed here because "+why+"]", ri.Engine, ri.Min)
+	nr.info.Instances += ri.Instances
+	nr.info.Evals += ri.Evals
+	for _, o := range from.Obls {
+		if o.Rule == ruleID {
+			o.Rule = as
+			r.Obls = append(r.Obls, o)
+		}
+	}
+	for f := range from.Functions {
+		r.Functions[f] = true
+	}
+}
+
 // Fn notes that a function was analysed.
 func (r *Report) Fn(name string) { r.Functions[name] = true }
 
